@@ -2,7 +2,10 @@
 //! cactusref build (real hashbrown, real allocator). Used for translator
 //! validation (trace must equal the MIR executor's trace) and for replay of
 //! counterexamples (also under Miri).
+#[cfg(not(feature = "stdrc"))]
 use cactusref::{Adopt, Rc, Weak};
+#[cfg(feature = "stdrc")]
+use std::rc::{Rc, Weak};
 use std::alloc::{GlobalAlloc, Layout, System};
 use std::cell::{Cell, RefCell};
 use std::collections::HashMap;
@@ -226,6 +229,7 @@ fn run_op(op: &Op, _in_dtor: bool) {
                     ST.with(|s| s.borrow_mut().addr2obj.insert(Rc::as_ptr(&r) as usize, id));
                     put(a[2], H::Rc(r));
                 }
+                #[cfg(not(feature = "stdrc"))]
                 "links" => {
                     let v = with_rc(a[1], |r| Rc::__verif_links(r));
                     let mut items: Vec<String> = ST.with(|s| {
@@ -325,6 +329,7 @@ fn run_op(op: &Op, _in_dtor: bool) {
                     let w = with_rc(a[1], |o| o.weak.borrow_mut().remove(k));
                     put(a[3], H::Weak(w));
                 }
+                #[cfg(not(feature = "stdrc"))]
                 "adopt" => {
                     if a[1] == a[2] {
                         with_rc(a[1], |x| unsafe { Rc::adopt_unchecked(x, x) });
@@ -332,6 +337,7 @@ fn run_op(op: &Op, _in_dtor: bool) {
                         with_rc(a[1], |x| with_rc(a[2], |y| unsafe { Rc::adopt_unchecked(x, y) }));
                     }
                 }
+                #[cfg(not(feature = "stdrc"))]
                 "unadopt" => {
                     if a[1] == a[2] {
                         with_rc(a[1], |x| Rc::unadopt(x, x));
@@ -533,6 +539,10 @@ fn run_script(name: String, ops: Vec<Op>, seed: u64) {
     }
 }
 
+#[cfg(feature = "stdrc")]
+fn ring_at_scale(_n: usize, _stack_kb: usize) {}
+
+#[cfg(not(feature = "stdrc"))]
 fn ring_at_scale(n: usize, stack_kb: usize) {
     // C15 confirmation at scale: build a ring of n adopted objects and collect it on a small stack
     static DESTROYED: AtomicUsize = AtomicUsize::new(0);
